@@ -239,6 +239,16 @@ class Evaluator(object):
             else:
                 self.block(st.orelse, env, fi)
             return
+        if isinstance(st, ast.Assert):
+            # evaluated like any test on the representatives: an assertion that fails for one of them raises here as it would
+            # at run time; one whose outcome the abstract values cannot decide is taken as holding (a stated invariant)
+            try:
+                tv = self.truth(self.expr(st.test, env, fi))
+            except AnalysisError:
+                tv = True
+            if tv is False:
+                raise _Raise("AssertionError")
+            return
         if isinstance(st, ast.Return):
             raise _Return(self.expr(st.value, env, fi) if st.value is not None else K(None))
         if isinstance(st, ast.Raise):
